@@ -182,7 +182,9 @@ export class ProcGenWrapper {
 
   create(data: DataValue): { [field: string]: BindingMapGen[] } | undefined {
     const { shadowRoot, procGen } = this
-    const children = procGen(this, true, data, undefined)
+    // (the closures of this pass are run again, in update mode, when a dynamic-slots child changes
+    // its slot values before the first update of this component: an empty tree, "no data changed")
+    const children = procGen(this, true, data, Object.create(null) as UpdatePathTreeRoot)
     this.handleChildrenCreationAndInsert(children.C, shadowRoot, undefined, undefined)
     return children.B
   }
